@@ -89,8 +89,10 @@ impl Generator
 	/// Change the target triple from the current OS to WebAssembly.
 	pub fn for_wasm(&mut self) -> Result<(), anyhow::Error>
 	{
+		// Modules added later take their target triple from this field.
+		self.target_triple = CString::new("wasm32-unknown-wasi")?;
 		unsafe {
-			LLVMSetTarget(self.module, cstr!("wasm32-unknown-wasi"));
+			LLVMSetTarget(self.module, self.target_triple.as_ptr());
 			let data_layout = "e-p:32:32-i64:64-n32:64-S64";
 			self.data_layout = CString::new(data_layout)?;
 			self.type_of_usize = LLVMInt32TypeInContext(self.context);
